@@ -228,6 +228,10 @@ def r2(ctx: Ctx) -> None:
                     n_draw += 1
                     ctx.holds(f, e.node, f"random draw {e.name} on an instance generator", expected="instance generator", found=short(rt))
     ctx.require(n_new >= 6 and n_pass >= 6 and n_draw >= 8, f"generator discipline: found only {n_new} constructions, {n_pass} hand-overs, {n_draw} draws")
+    from ..kit import super_init_forwarding
+
+    for f, node, ok, what in super_init_forwarding(ctx, "prng"):
+        ctx.check(ok, f, node, f"{f.qualname} hands the generator it was given to its base constructor", "super().__init__(..., prng=prng)", what)
 
 
 _ORDER_FREE_CONSUMERS = {"len", "sorted", "sum", "min", "max", "any", "all", "frozenset", "set", "bool"}
